@@ -47,12 +47,22 @@ func sighupChild(specPath string) {
 		fmt.Println("CHILD-ERROR", err)
 		os.Exit(3)
 	}
-	RealSighup = func(total func() float64) {
+	RealSighup = func(burst int, total func() float64) {
 		before := total()
-		fmt.Println("SIGHUP-PLEASE")
+		fmt.Printf("SIGHUP-PLEASE %d\n", burst)
 		deadline := time.Now().Add(30 * time.Second)
 		for time.Now().Before(deadline) {
 			if total() > before {
+				if burst > 1 {
+					// a signal that arrived during the reload has queued one more: let it finish (counter stable for a while)
+					last, since := total(), time.Now()
+					for time.Since(since) < 200*time.Millisecond && time.Now().Before(deadline) {
+						time.Sleep(5 * time.Millisecond)
+						if now := total(); now != last {
+							last, since = now, time.Now()
+						}
+					}
+				}
 				return
 			}
 			time.Sleep(time.Millisecond)
@@ -98,9 +108,16 @@ func runSighup(sc Scenario) vh.Result {
 		line, rerr := rd.ReadString('\n')
 		line = strings.TrimRight(line, "\n")
 		switch {
-		case line == "SIGHUP-PLEASE":
-			signals++
-			_ = syscall.Kill(cmd.Process.Pid, syscall.SIGHUP)
+		case strings.HasPrefix(line, "SIGHUP-PLEASE"):
+			burst := 1
+			fmt.Sscanf(line, "SIGHUP-PLEASE %d", &burst)
+			for b := 0; b < burst; b++ {
+				if b > 0 {
+					time.Sleep(time.Duration(2+3*b) * time.Millisecond) // inside the window of the reload started by the first one
+				}
+				signals++
+				_ = syscall.Kill(cmd.Process.Pid, syscall.SIGHUP)
+			}
 		case strings.HasPrefix(line, "CHILD-REPORT "):
 			var r childReport
 			if json.Unmarshal([]byte(line[len("CHILD-REPORT "):]), &r) == nil {
@@ -119,6 +136,14 @@ func runSighup(sc Scenario) vh.Result {
 	werr := cmd.Wait()
 	res.NonTrivial = signals > 0
 	res.Classes = append(res.Classes, "real-SIGHUP-delivered-to-a-child-process")
+	for _, g := range sc.Gens {
+		for _, r := range g.Reloads {
+			if r.Burst > 1 {
+				res.Classes = append(res.Classes, "signals-arriving-while-a-reload-runs(burst)")
+				break
+			}
+		}
+	}
 	if rep == nil {
 		res.Violation = vh.Fail("reload:child-died", "the agent process died or hung after %d SIGHUP(s) (%v); last output:\n%s", signals, werr, strings.Join(tail, "\n"))
 		return res
@@ -134,12 +159,19 @@ func genSighupScenario(t *rapid.T) Scenario {
 	if len(sc.Gens) > 2 {
 		sc.Gens = append(sc.Gens[:1], sc.Gens[len(sc.Gens)-1])
 	}
+	for gi := range sc.Gens {
+		for ri := range sc.Gens[gi].Reloads {
+			if rapid.Bool().Draw(t, "burst") {
+				sc.Gens[gi].Reloads[ri].Burst = rapid.IntRange(2, 4).Draw(t, "nsignals")
+			}
+		}
+	}
 	return sc
 }
 
 func TestE2ESighup(t *testing.T) {
 	vh.Run(t, vh.Spec[Scenario]{
 		Name: "e2e-sighup", Gen: genSighupScenario, Run: runSighup, Quick: 3, Thorough: 15, ShrinkSeconds: 20,
-		Rule: "reload scenarios of the e2e-reload family, one per child process, in which every reload is triggered by a real SIGHUP sent by the parent with kill(2) at the moment the scenario schedules it (the child waits until the agent's own signal handler has counted a reload); oracle as in e2e-reload, evaluated in the child; non-trivial = at least one signal was delivered",
+		Rule: "reload scenarios of the e2e-reload family, one per child process, in which every reload is triggered by a real SIGHUP sent by the parent with kill(2) at the moment the scenario schedules it, half of the time as a burst of 2-4 signals a few ms apart so that signals arrive while a reload is running (the child waits until the agent's own signal handler has counted a reload); oracle as in e2e-reload, evaluated in the child; non-trivial = at least one signal was delivered",
 	})
 }
